@@ -178,7 +178,9 @@ def replay (C : Cfg Nat) : St Nat Nat Nat Nat → List E → Nat → Except Stri
 
 def dgKey (d : Dg) : String := s!"{addrStr d.src}>{addrStr d.dst}:{bytesStr d.bytes}"
 
-def sortStrs (l : List String) : List String := (l.toArray.qsort (· < ·)).toList
+/-- sorted with `List.mergeSort` (provable; `Array.qsort`'s worker is private in the core library) -/
+def sortStrs (l : List String) : List String := l.mergeSort (fun a b => decide (a ≤ b))
+def sortNats (l : List Nat) : List Nat := l.mergeSort (fun a b => decide (a ≤ b))
 
 /-- multiset comparison of expected and observed datagrams, plus causality (observed no earlier than
 the handler that sent it; k-th copy matched with k-th copy) -/
@@ -193,10 +195,46 @@ def compareOut (expected observed : List Dg) : Option String :=
     let bad := expected.any fun e =>
       let es := (expected.filter (fun x => dgKey x == dgKey e)).map (·.t)
       let os := (observed.filter (fun x => dgKey x == dgKey e)).map (·.t)
-      let es := (es.toArray.qsort (· < ·)).toList
-      let os := (os.toArray.qsort (· < ·)).toList
-      (es.zip os).any fun (a, b) => b < a
+      ((sortNats es).zip (sortNats os)).any fun (a, b) => b < a
     if bad then some "datagram-observed-before-its-handler" else none
+
+/-! ### the preconditions of the greedy matching (`Props/C17Match.lean`), as Bool functions -/
+
+/-- Bool version of `List.Pairwise` -/
+def pairwiseB {α : Type} (R : α → α → Bool) : List α → Bool
+  | [] => true
+  | a :: r => r.all (R a) && pairwiseB R r
+
+/-- the key of a datagram as `eventsOf` sees it: source id and deserialized message -/
+def sameKey (a b : Dg) : Bool := idOf a.src == idOf b.src && deMsg a.bytes == deMsg b.bytes
+
+/-- same-key datagrams appear in the pool in send-time order -/
+def poolOrdered (pool : List Dg) : Bool := pairwiseB (fun a b => !sameKey a b || decide (a.t ≤ b.t)) pool
+
+/-- the log is time-ordered -/
+def logOrdered (log : List Entry) : Bool := pairwiseB (fun e e' => decide (e.time ≤ e'.time)) log
+
+/-- `on_start` runs after bind: the time of the first entry when that is `on_start`, else "never" -/
+def tStartOf (log : List Entry) (tEnd : Nat) : Nat :=
+  match log.head? with | some (.start t _ _) => t | _ => tEnd
+
+/-- a datagram must be delivered if it parses, was sent after the destination socket was bound and long enough
+before the end of the observation -/
+def mustDeliver (tStart tEnd grace : Nat) (d : Dg) : Bool :=
+  (deMsg d.bytes).isSome && d.t + grace ≤ tEnd && tStart ≤ d.t
+
+/-- among same-key datagrams of the pool, one that must be delivered is never preceded by one that need not -/
+def deadlineOrdered (tStart tEnd grace : Nat) (pool : List Dg) : Bool :=
+  pairwiseB (fun a b => !sameKey a b || !mustDeliver tStart tEnd grace b || mustDeliver tStart tEnd grace a) pool
+
+/-- no datagram of the pool was sent before the destination's `on_start` -/
+def noEarly (tStart : Nat) (pool : List Dg) : Bool := pool.all fun d => decide (tStart ≤ d.t)
+
+/-- stable partition of the pool: the datagrams that must be delivered first.  The greedy pass then prefers them,
+which is safe (a datagram feasible for a receive stays feasible for every later same-key receive of a time-ordered
+log) and makes `deadlineOrdered` hold by construction (`C17_oracle_normalise`) -/
+def normalise (tStart tEnd grace : Nat) (pool : List Dg) : List Dg :=
+  pool.filter (mustDeliver tStart tEnd grace) ++ pool.filter (fun d => !mustDeliver tStart tEnd grace d)
 
 /-- the whole scenario: every actor's log is accepted, every `on_msg` is backed, every datagram the
 machine says was sent to an observer port was observed there exactly once and nothing else was,
@@ -208,9 +246,13 @@ def checkScenario (actors : List ActorLog) (psent precv : List Dg) (observers : 
     | [], _ => none
     | a :: rest, i =>
       let me := addrOf a.id
-      let pool := (psent ++ allSends).filter (fun d => d.dst == me)
+      -- a datagram must be delivered if it parses, was sent after the destination socket was bound
+      -- (on_start runs after bind) and long enough before the end of the observation
+      let tStart := tStartOf a.log tEnd
+      let pool := normalise tStart tEnd grace ((psent ++ allSends).filter (fun d => d.dst == me))
       match eventsOf pool a.log 0 with
-      | .error e => some s!"actor={i} {e}"
+      | .error e =>
+        some (if logOrdered a.log then s!"actor={i} {e}" else s!"actor={i} log-not-time-ordered {e}")
       | .ok (evs, left) =>
         match replay (relax (cfgOf a.id)) init (expand evs) 0 with
         | .error e => some s!"actor={i} {e}"
@@ -224,10 +266,7 @@ def checkScenario (actors : List ActorLog) (psent precv : List Dg) (observers : 
             match compareOut mine (precv.filter (fun d => d.src == me)) with
             | some e => some s!"actor={i} {e}"
             | none =>
-              -- a datagram must be delivered if it parses, was sent after the destination socket was bound
-              -- (on_start runs after bind) and long enough before the end of the observation
-              let tStart := match a.log.head? with | some (.start t _ _) => t | _ => tEnd
-              let undelivered := left.filter fun d => (deMsg d.bytes).isSome && d.t + grace ≤ tEnd && tStart ≤ d.t
+              let undelivered := left.filter (mustDeliver tStart tEnd grace)
               if !a.log.isEmpty && !undelivered.isEmpty then
                 some s!"actor={i} datagram-not-delivered n={undelivered.length} first={(undelivered.head?.map dgKey).getD ""}"
               else go rest (i + 1)
